@@ -98,7 +98,11 @@ func retCommittedDataC(node *raftconn.RaftNode, dw *raftlog.DataWrapper, committ
 
 func dealCommitData(node *raftconn.RaftNode, client metaclient.MetaClient, storage StorageService, data []byte, database string, ptId uint32) {
 	dataWrapper, err := raftlog.Unmarshal(data)
-	defer retCommittedDataC(node, dataWrapper, err)
+	// the proposer is answered with the outcome of the local apply, not with the value err had
+	// when the defer statement was evaluated
+	defer func() {
+		retCommittedDataC(node, dataWrapper, err)
+	}()
 	if err != nil {
 		logger.GetLogger().Error("Unmarshal commit data failed", zap.Error(err))
 		return
